@@ -48,6 +48,11 @@ META["C08"] = {
   "design_ref": "DESIGN.md §3 C08",
   "note": "Level `other`: proved and bounded clauses itemised in the evidence.",
   "technique": "deductive for definedness/closed form (pyvc.vecexpr + z3); bounded run-time contracts for the axiom table"}
+META["C12"] = {
+  "text": "KNNSubgraph.create_arcs, calculate_pdf, eliminate_maxima_height and Subgraph.destroy_arcs are under contract. create_arcs: the insertion-scan invariant (buffer sorted, filler slots at FLOAT_MAX, every buffer entry an offered sample with its weight, a ghost slot map locating every offered sample either in the buffer or - when the buffer is full - at least as far as the last entry), the bubble invariant relative to the snapshot at the start of the insertion, and the descending collection loop give the statement for every sample: exactly min(k, n-1) distinct other samples, ascending distances, nobody outside closer than the farthest neighbour, radius, per-rank maxima and density bound exact (upper bound + ghost witness), 1e-5 fallback. calculate_pdf: estimate = PSUM/(k+1) with PSUM a ghost function defined by primitive recursion, min/max with witnesses, affine map onto [1, MAX_DENSITY], cost = density - 1, constant = 2/9 of the bound. All 600+ obligations discharged by z3 for all n, k (also k > n-1), tie patterns, both weight sources.",
+  "design_ref": "DESIGN.md §3 C12",
+  "note": "Over the reals with exp uninterpreted (positivity and exp(u) <= 1 for u <= 0 assumed); index arrays modelled as integers; fresh arcs and a positive density bound are preconditions taken from the statement.",
+  "technique": TECH}
 ALL = ["C%02d" % i for i in range(1, 21)]
 NOT_APPLICABLE = []
 def _na():
